@@ -9,6 +9,8 @@ case                      reset
 new  <changes>            NewValidatorSet            -> ok <set> | err <class>
 raw  <changes>            updateWithChangeSet(.., false) on an empty set, no increment
 upd  <changes>            UpdateWithChangeSet        -> ok <set> | err <class> <set>
+blk  <changes>            cstate.updateState: copy, apply the block's changes (when there are any),
+                          advance one round          -> ok <set> | err <class> <set>
 inc  <k> [spec]           IncrementProposerPriority  -> <set> [S=0|1] | panic <set>
 prop                      GetProposer                -> <addr|nil> <set>
 copy                      alt := Copy(cur)           -> <alt>
@@ -70,6 +72,13 @@ def step (s : St) (line : String) : St × String :=
     | none => (s, "bad-op")
     | some cs =>
       match updateWithChangeSet s.cur cs true with
+      | .ok vs => ({ s with cur := vs }, "ok " ++ showSet vs)
+      | .error e => (s, "err " ++ e.name ++ " " ++ showSet s.cur)
+  | ["blk", cs] =>
+    match parseChanges cs with
+    | none => (s, "bad-op")
+    | some cs =>
+      match blockStep s.cur cs with
       | .ok vs => ({ s with cur := vs }, "ok " ++ showSet vs)
       | .error e => (s, "err " ++ e.name ++ " " ++ showSet s.cur)
   | "inc" :: k :: rest =>
